@@ -435,6 +435,11 @@ def gen_misuse(rng, models, state, only=None, first=None):
 # oracles
 # --------------------------------------------------------------------------------------------------
 
+def hist_mod():
+    from machines import hist
+    return hist
+
+
 def isolated(mm):
     """result of the declared model built alone"""
     sv = mm['pool'][0]
@@ -535,6 +540,8 @@ def check_case(case, props):
                         stats['observations']['not_optimal_after_rejected_misuse'] = 1
                     elif out['sol'] == 'inconclusive':
                         stats['inconclusive']['engine_limit:%s' % out.get('status')] = 1
+                    elif hist_mod().engine_refuses_solvable(it, mm['pre'] + 'm', sv):
+                        stats['inconclusive']['engine_defect_status:%s' % sv] = 1
                     else:
                         viol('models-interfere', 'model %s (%s): %s reports no optimum (status %s) after the interleaved run, the same '
                              'declared model built alone solved to %.9g with the same interface'
@@ -545,6 +552,8 @@ def check_case(case, props):
                     if mm['pre'] in polluted:
                         stats['observations']['result_changed_after_rejected_misuse'] = \
                             stats['observations'].get('result_changed_after_rejected_misuse', 0) + 1
+                    elif hist_mod().engine_at_fault(it, mm['pre'] + 'm', sv, mm['tol']):
+                        stats['inconclusive']['engine_defect:%s' % sv] = 1
                     else:
                         viol('models-interfere', 'model %s (%s) built interleaved with %s gives %.9g, built alone %.9g'
                              % (mm['pre'], mm['kind'], [m_['kind'] for m_ in models if m_ is not mm], out['obj'], obj0))
